@@ -389,7 +389,6 @@ def _comp_over_states(q):
     return None, None
 
 
-@shape_rule
 def r6_ranges(ctx):
     prog = ctx.prog
     base = prog.find_class("Election")
@@ -398,34 +397,25 @@ def r6_ranges(ctx):
     def key_of(q, e):
         return Normalizer(q.node, inline=False, int_atoms=lambda a: True).key(e)
 
-    # get_elected
-    q = prog.find_func("Election.get_elected")
-    comp, g = _comp_over_states(q)
-    k = key_of(q, g.iter) if g else "<no comprehension over self.election_states[...]>"
-    inner_ok = False
-    if comp is not None and len(comp.generators) == 2:
-        g1 = comp.generators[1]
-        inner_ok = astx.u(g1.iter) == f"{g.target.id}.elected" and astx.is_name(comp.elt, g1.target.id)
-    if comp is not None and inner_ok:
-        filt = [bool_key(Normalizer(q.node, inline=False).guard(t)) for g_ in comp.generators for t in g_.ifs]
-        inner_ok = filt in ([], [f"not eq({g.target.id}.elected, [frozenset()])"], [f"not eq([frozenset()], {g.target.id}.elected)"])
-    ctx.check(k == "self.election_states[:round_number + 1]" and inner_ok, q, comp or q.node,
-              "get_elected folds rounds 0..rn in order", k,
-              f"iterates `{k}` / inner groups ok={inner_ok}; specified self.election_states[: rn + 1] and each state's elected groups in order")
-    # get_eliminated
-    q = prog.find_func("Election.get_eliminated")
-    comp, g = _comp_over_states(q)
-    k = key_of(q, g.iter) if g else "<none>"
-    inner_ok = False
-    if comp is not None and len(comp.generators) == 2:
-        g1 = comp.generators[1]
-        inner_ok = key_of(q, g1.iter) == f"{g.target.id}.eliminated[::-1]" and astx.is_name(comp.elt, g1.target.id)
-    if comp is not None and inner_ok:
-        filt = [bool_key(Normalizer(q.node, inline=False).guard(t)) for g_ in comp.generators for t in g_.ifs]
-        inner_ok = filt in ([], [f"not eq({g.target.id}.eliminated, [frozenset()])"], [f"not eq([frozenset()], {g.target.id}.eliminated)"])
-    ctx.check(k == "self.election_states[round_number::-1]" and inner_ok, q, comp or q.node,
-              "get_eliminated folds rounds rn..0, each round reversed", k,
-              f"iterates `{k}` / inner reversed={inner_ok}; specified self.election_states[rn::-1] with state.eliminated[::-1]")
+    from vk import listform
+
+    def fold(q, label, want_iter, attr_elt, skip_when):
+        """The query returns the concatenation, over the states `want_iter`, of each state's groups `attr_elt`; rounds whose
+        group tuple is the empty placeholder may be skipped (in any spelling: comprehension filter or guard + continue)."""
+        rets = [n for n in astx.walk_own(q.node) if isinstance(n, ast.Return)]
+        b = listform.build_of(q.node, rets[0].value) if len(rets) == 1 else None
+        if b is None:
+            ctx.undecided(q, rets[0] if rets else q.node, label, "the returned tuple is not built as a concatenation over the recorded states that this rule can evaluate")
+            return
+        Nq = Normalizer(q.node, inline=False, int_atoms=lambda a: True)
+        k = Nq.key(b.iter)
+        st = b.var
+        lits = b.filter_literals(q.node, Normalizer(q.node, inline=False))
+        allowed = {f"not eq({st}.{skip_when}, [frozenset()])", f"not eq([frozenset()], {st}.{skip_when})"}
+        good = b.kind == "flatmap" and k == want_iter and Nq.key(b.elt) == attr_elt.format(st=st) and (not lits or (len(lits) == 1 and lits <= allowed))
+        ctx.check(good, q, b.node, label, k, f"folds `{Nq.key(b.elt)}` over `{k}` under {sorted(lits)}; specified {attr_elt.format(st='state')} over {want_iter}, skipping at most the empty placeholder")
+    fold(prog.find_func("Election.get_elected"), "get_elected folds rounds 0..rn in order", "self.election_states[:round_number + 1]", "{st}.elected", "elected")
+    fold(prog.find_func("Election.get_eliminated"), "get_eliminated folds rounds rn..0, each round reversed", "self.election_states[round_number::-1]", "{st}.eliminated[::-1]", "eliminated")
     # get_remaining
     q = prog.find_func("Election.get_remaining")
     rets = [n for n in astx.walk_own(q.node) if isinstance(n, ast.Return)]
@@ -458,6 +448,19 @@ def r6_ranges(ctx):
         good = astx.u(lp.iter) == "range(round_number)" and st and all(key_of(q, s.slice) == f"{idx} + 1" for s in st)
         rounds = [n for n in astx.walk_own(lp) if isinstance(n, ast.Assign) and "Round" in astx.u(n.targets[0])]
         good = good and rounds and all(key_of(q, r.value) == f"{idx} + 1" for r in rounds)
+    if not loops:
+        # the same walk spelled with enumerate: for r, state in enumerate(self.election_states[1 : rn + 1], start=1)
+        for lp in (n for n in astx.walk_own(q.node) if isinstance(n, ast.For) and isinstance(n.iter, ast.Call) and astx.u(n.iter.func) == "enumerate"):
+            it = lp.iter
+            start = it.args[1] if len(it.args) > 1 else next((k.value for k in it.keywords if k.arg == "start"), None)
+            sub = it.args[0] if it.args else None
+            if isinstance(sub, ast.Subscript) and astx.is_self_attr(sub.value, "election_states") and isinstance(lp.target, ast.Tuple) and len(lp.target.elts) == 2:
+                loops = [lp]
+                r = astx.u(lp.target.elts[0])
+                d = f"for {r}, state in enumerate(states[{key_of(q, sub.slice)}], start={astx.u(start) if start is not None else 0})"
+                rounds = [n for n in astx.walk_own(lp) if isinstance(n, ast.Assign) and "Round" in astx.u(n.targets[0])]
+                good = key_of(q, sub.slice) == "1:round_number + 1" and astx.is_const(start, 1) and rounds and all(key_of(q, x.value) == r for x in rounds)
+                break
     ctx.check(bool(good), q, loops[0] if loops else q.node, "get_status_df applies states 1..rn in increasing order", d, d)
     # get_profile (base and overrides that replay)
     for q in [m for c in prog.subclasses("Election") for m in [c.methods.get("get_profile")] if m is not None]:
@@ -476,15 +479,24 @@ def r6_ranges(ctx):
             init = bool(outer) and all(dv is not None and astx.u(dv) == "self._profile" for dv in outer)
             good = (astx.u(lp.iter) == "range(round_number)" and astx.u(b.get("prev_state")) == f"self.election_states[{idx}]"
                     and "store_states" not in b and isinstance(tgt, ast.Assign) and astx.u(tgt.targets[0]) == astx.u(b["profile"]) and bool(init))
-            # the replay consults nothing the run left behind except the recorded states themselves: an object cached
-            # by the run (e.g. a sub-election whose states the run renumbers in place) answers differently afterwards
-            rd = {a: why for a, why in _run_dependent_attrs(prog, q.cls).items() if a not in ("election_states", "length")}
-            stale = [n for n in astx.walk_own(q.node) if isinstance(n, ast.Attribute) and isinstance(n.ctx, ast.Load) and astx.is_name(n.value, "self") and n.attr in rd]
-            ctx.check(not stale, q, stale[0] if stale else q.node, f"{q.short}: the replay reads only construction-time state and the recorded states", f"run-dependent attributes: {sorted(rd)}",
-                      f"reads self.{stale[0].attr if stale else ''}, which is {rd.get(stale[0].attr) if stale else ''}: the replayed profile depends on what the run left in it")
             ctx.check(good, q, lp, f"{q.short}: replays steps 0..rn-1 from the initial profile without recording",
                       f"for {idx} in {astx.u(lp.iter)}: {astx.u(tgt)[:90]}",
                       f"replay loop is `for {idx} in {astx.u(lp.iter)}: {astx.u(tgt)[:90]}`; specified range(rn) over self.election_states[i], starting at self._profile, store_states unset")
+
+
+def r8_replay_reads(ctx):
+    """A get_profile implementation consults nothing the run left behind except the recorded states themselves: an object
+    cached by the run (e.g. a sub-election whose states the run renumbers in place) answers differently afterwards."""
+    prog = ctx.prog
+    n = 0
+    for q in [m for c in prog.subclasses("Election") for m in [c.methods.get("get_profile")] if m is not None]:
+        n += 1
+        rd = {a: why for a, why in _run_dependent_attrs(prog, q.cls).items() if a not in ("election_states", "length")}
+        stale = [x for x in astx.walk_own(q.node) if isinstance(x, ast.Attribute) and isinstance(x.ctx, ast.Load) and astx.is_name(x.value, "self") and x.attr in rd]
+        ctx.check(not stale, q, stale[0] if stale else q.node, f"{q.short}: the replay reads only construction-time state and the recorded states", f"run-dependent attributes: {sorted(rd)}",
+                  f"reads self.{stale[0].attr if stale else ''}, which is {rd.get(stale[0].attr) if stale else ''}: the replayed profile depends on what the run left in it")
+    if n < 2:
+        ctx.vanished(f"get_profile implementations: only {n}")
 
 
 # --------------------------------------------------------------------------------------------- R7
@@ -608,6 +620,7 @@ RULES = [
     ("C09.R5", r5_recorded_scores, 12, "recorded scores/order = class score function of the returned profile"),
     ("C09.R8", r8_defaults, 10, "documented defaults: every query addresses the final round by default"),
     ("C09.R7", r7_no_shared_mutable_state, 15, "no mutated mutable defaults / class-level / module-level state; shared utilities do not mutate their arguments"),
+    ("C09.R9", r8_replay_reads, 2, "get_profile implementations read no attribute the run writes (other than the recorded states)"),
     ("C09.R6", r6_ranges, 7, "cumulative queries use the documented slice / loop bounds"),
 ]
 
